@@ -856,6 +856,11 @@ def run(ctx):
             if vo.exists():
                 vo.unlink()
     ok = ctx.prove()
+    # translator tie: src/linalg.c is re-translated on every run with the dimensions fixed (every shape with all dimensions in
+    # 1..3, loops unrolled, arrays exactly sized: an out-of-bounds access is a translation error) and, shape by shape, proved to
+    # compute the cells of the hand model for ALL array contents and every NumOps instance (189 tie theorems)
+    tie_names = (H / "tie_names.txt").read_text().split()
+    ctx.translate_and_tie([("src/linalg.c", tie_names)], "GenLinalg", sorted(H.glob("TieLinalg*.v")), have=1, real=8)
     okf, outs, failed = ctx.coq_build(["C09/LinalgFloat.v"], timeout=600)
     if not okf:
         raise vlib.CheckError("C09/LinalgFloat.v does not compile: " + " ".join(outs.get("C09/LinalgFloat.v", "").split())[-400:])
